@@ -55,7 +55,7 @@ private theorem missingOfList_scopes (a b : St) (h : a.scopes = b.scopes) (c : N
   | p :: ps => by simp only [missingOfList, missingOf_scopes a b h c p, missingOfList_scopes a b h c ps]
 end
 
-theorem missingOfList_modCtor (st : St) (n : Nat) (f : CtorNode → CtorNode) (c : Nat) (ps : List Param) :
+private theorem missingOfList_modCtor (st : St) (n : Nat) (f : CtorNode → CtorNode) (c : Nat) (ps : List Param) :
     missingOfList (st.modCtor n f) c ps = missingOfList st c ps :=
   missingOfList_scopes (st.modCtor n f) st rfl c ps
 
